@@ -43,7 +43,7 @@ func (s *sess) checkParseFirst(rule, kind string, fn *ssa.Function, traces []*an
 			continue
 		}
 		if len(first.Args) == 2 {
-			if p, ok := first.Args[1].(*ssa.Parameter); !ok || len(fn.Params) == 0 || p != fn.Params[0] {
+			if p, ok := first.Args[1].(*ssa.Parameter); !ok || p != an.HandlerArg(fn) {
 				okData = false
 			}
 			tv := an.Unwrap(first.Args[0])
